@@ -84,7 +84,7 @@ def canon_inlines(children) -> tuple:
             else:
                 out.append(("br",))
         elif isinstance(c, inline.CodeSpan):
-            out.append(("code", _WS.sub(" ", c.children)))
+            out.append(("code", _WS.sub(" ", c.children).strip()))
         elif isinstance(c, inline.InlineHTML):
             out.append(("html", _WS.sub(" ", c.children)))
         elif isinstance(c, gfm.Url):
